@@ -1,7 +1,7 @@
 """C01 - Hermitian: U^dagger H U equals H_tilde on kept elements, zero on eliminated ones."""
 from .common import Decision, run_units
 from .series_props import fold_canaries
-from .hermitian_common import specs_hermitian, LEAN_SETTING_NOTE
+from .hermitian_common import specs_hermitian, LEAN_SETTING_NOTE, LEAN_VACUITY
 
 LEAN = ["PV.pairing", "PV.unit_left", "PV.X_comm", "PV.main_similarity", "PV.C01_similarity", "PV.C01_eliminated",
         "PV.TB.toMain", "PV.TB.C01_similarity", "PV.TB.C01_eliminated", "PV.TB.Dx_zero", "PV.TB.comm_WV"]
@@ -10,7 +10,7 @@ LEAN = ["PV.pairing", "PV.unit_left", "PV.X_comm", "PV.main_similarity", "PV.C01
 def check(tier, seed):
     d = Decision("C01", tier, seed)
     d.add_units(fold_canaries(run_units(specs_hermitian(tier))))
-    d.add_lean(LEAN)
+    d.add_lean(LEAN + LEAN_VACUITY)
     d.assumptions += [LEAN_SETTING_NOTE,
                       "input precondition: H is Hermitian (H[i,j,n]^dagger = H[j,i,n]) and masks are symmetric",
                       "all three variants of the equations (general, commuting_blocks, two_block_optimized) are covered by the Lean theorems; the two-block one "
